@@ -170,6 +170,7 @@ def read_record(data):
     return klass, py_to_val(state['v']), refs
 
 
+STRIDE = 1           # model oid n <-> real oid n * STRIDE (set by the replayer that concretises with a stride)
 FORMATS = False      # set by a check that concretises references in several formats (C10)
 
 
@@ -178,6 +179,8 @@ def datum_of(data):
     if data is None:
         return {'v': ('gone',), 'refs': frozenset()}
     k, v, refs = read_record(data)
+    if STRIDE != 1:
+        refs = frozenset(r // STRIDE if r % STRIDE == 0 else ('unmapped-oid', r) for r in refs)
     d = {'v': v, 'refs': refs}
     if FORMATS:
         want = sorted((o, t) for o in refs for t in ref_tokens(o, True))
